@@ -140,6 +140,11 @@ def acctinfo_response(accounts, dtacctup=None):
             m = M.minimal(U["BPACCTINFO"])
             m["kw"]["bankacctfrom"]["kw"].update(bankid=["str", a["bankid"]], acctid=["str", a["acctid"]], accttype=["tok", a.get("accttype", "CHECKING")])
         m["kw"]["svcstatus"] = ["tok", a["status"]]
+        # what else the server says about the account (transaction download, transfer source / destination) is not what
+        # "ACTIVE" means
+        for i, flag in enumerate(("suptxdl", "xfersrc", "xferdest")):
+            if flag in m["kw"] and "caps" in a:
+                m["kw"][flag] = ["bool", bool(a["caps"] >> i & 1)]
         info["list"].append(m)
     rs = {"cls": "ACCTINFORS", "kw": {"dtacctup": dtacctup or dt_tag(2020)}, "list": [infos[g] for g in sorted(infos)]}
     trn = {"cls": "ACCTINFOTRNRS", "kw": {"trnuid": ["str", "1"], "status": {"cls": "STATUS", "kw": {"code": ["int", 0], "severity": ["tok", "INFO"]}, "list": []}, "acctinfors": rs}, "list": []}
